@@ -25,6 +25,11 @@ class PtySession:
         if pid == 0:
             try:
                 os.chdir(cwd or sb.work)
+                try:
+                    import resource
+                    resource.setrlimit(resource.RLIMIT_AS, (6 << 30, 6 << 30))
+                except (OSError, ValueError):
+                    pass
                 os.execve(binary or sb.cicada, [binary or sb.cicada] + list(args or []), env)
             finally:
                 os._exit(127)
